@@ -215,8 +215,12 @@ func vfC09AddStmt(s *Session, stmt string, cols []ColumnInfo, pkIdx []int, pkeyV
 		meta.pkeyColumns = pkIdx
 	} else {
 		tm := &TableMetadata{Keyspace: "ks", Name: "tbl"}
-		for _, i := range pkIdx {
-			tm.PartitionKey = append(tm.PartitionKey, &ColumnMetadata{Keyspace: "ks", Table: "tbl", Name: cols[i].Name})
+		for k, i := range pkIdx {
+			name := "lit" + strconv.Itoa(k) // a key column the statement gives as a literal: no bind marker
+			if i >= 0 {
+				name = cols[i].Name
+			}
+			tm.PartitionKey = append(tm.PartitionKey, &ColumnMetadata{Keyspace: "ks", Table: "tbl", Name: name})
 		}
 		s.schemaDescriber = &schemaDescriber{session: s, cache: map[string]*KeyspaceMetadata{
 			"ks": {Name: "ks", Tables: map[string]*TableMetadata{"tbl": tm}},
@@ -248,8 +252,10 @@ func vfC09Routing(via string, vals []vfC09Comp, idx []int) vfC09Vec {
 		idx0 := make([]int, len(idx))
 		ktypes := make([]TypeInfo, len(idx))
 		for i, x := range idx {
-			idx0[i] = x - 1
-			ktypes[i] = types[x-1]
+			idx0[i] = x - 1 // 0 = key column not bound by a marker (-1): only the schema paths can express it
+			if x > 0 {
+				ktypes[i] = types[x-1]
+			}
 		}
 		var out []byte
 		var err error
@@ -268,8 +274,8 @@ func vfC09Routing(via string, vals []vfC09Comp, idx []int) vfC09Vec {
 			s := vfC09Session(stmt, cols, idx0, via == "prepared4")
 			q := &Query{stmt: stmt, values: values, session: s, routingInfo: &queryRoutingInfo{}}
 			out, err = q.GetRoutingKey()
-		case "batch":
-			s := vfC09Session(stmt, cols, idx0, true)
+		case "batch", "batchmeta":
+			s := vfC09Session(stmt, cols, idx0, via == "batch")
 			b := &Batch{session: s, routingInfo: &queryRoutingInfo{}}
 			b.Entries = append(b.Entries, BatchEntry{Stmt: stmt, Args: values})
 			out, err = b.GetRoutingKey()
@@ -409,7 +415,18 @@ func vfC09SeqVias(obj string) []string {
 	return []string{"query", "prepared4", "preparedmeta"}
 }
 
-var vfC09Vias = []string{"create", "query", "prepared4", "preparedmeta", "batch"}
+var vfC09Vias = []string{"create", "query", "prepared4", "preparedmeta", "batch", "batchmeta"}
+
+// vfC09ViasFor: a statement that leaves a key column to a literal (idx 0) comes with a PREPARE result
+// without partition-key indexes on every protocol version, i.e. the table-metadata paths
+func vfC09ViasFor(idx []int) []string {
+	for _, x := range idx {
+		if x == 0 {
+			return []string{"preparedmeta", "batchmeta"}
+		}
+	}
+	return vfC09Vias
+}
 
 // ---------------------------------------------------------------- drivers
 
@@ -493,7 +510,7 @@ func TestVfC09TokenCases(t *testing.T) {
 				vec.put(vfC09Hash("rnd", key))
 			}
 		case "rk":
-			for _, via := range vfC09Vias {
+			for _, via := range vfC09ViasFor(c.Idx) {
 				v := vfC09Routing(via, c.Vals, c.Idx)
 				v["i"] = i
 				res.put(v)
@@ -749,7 +766,11 @@ func TestVfC09TokenRecord(t *testing.T) {
 			for j := range idx {
 				idx[j] = perm[j] + 1
 			}
-			vec.put(vfC09Routing(vfC09Vias[rng.Intn(len(vfC09Vias))], vals, idx))
+			if len(idx) > 1 && rng.Intn(4) == 0 {
+				idx[rng.Intn(len(idx))] = 0 // this key column is a literal in the statement
+			}
+			vias := vfC09ViasFor(idx)
+			vec.put(vfC09Routing(vias[rng.Intn(len(vias))], vals, idx))
 		}
 	}
 	fmt.Printf("VFSUMMARY {\"vectors\":%d}\n", vec.n)
